@@ -14,10 +14,10 @@ type RLEStats struct {
 	Literal       [129]int // histogram of literal packet lengths 1..128
 	Replicate     [129]int // histogram of replicate packet lengths 2..128
 	Noop          int
-	TrailingBytes int  // unread bytes after the plane was complete (sum over segments)
-	TrailingNZ    int  // ... of which non-zero
-	OddOffsets    int  // segment offsets that are odd (recorded, not judged)
-	UnusedNonZero int  // non-zero unused offset slots (recorded, not judged)
+	TrailingBytes int // unread bytes after the plane was complete (sum over segments)
+	TrailingNZ    int // ... of which non-zero
+	OddOffsets    int // segment offsets that are odd (recorded, not judged)
+	UnusedNonZero int // non-zero unused offset slots (recorded, not judged)
 }
 
 // RLEDecodeFrame parses a DICOM PS3.5 Annex G frame.
